@@ -47,6 +47,10 @@ CLAIMED = {
    "TLA+ model of hook and filter.lfs.* classes under install/update/uninstall (spec/Install.tla; NoDestroy and Idempotent checked by TLC as action properties); per-edge behaviours replayed with the real git-lfs in a private HOME; hook bytes and configuration classified and compared",
    "TLC explores every initial state with <=2 hooks/keys in a non-default class (8 hook classes incl. historical, re-indented, user script, user script containing the LFS line, LFS text + >1024 bytes padding + user tail; unset/current/historical/skip-smudge/custom values for the four keys) and every sequence of <=2 (thorough <=3, all four hooks) operations install [--force] [--skip-smudge], update [--force], uninstall. Replayed runs are judged on: a user-owned hook is byte-identical after any operation without --force, a custom filter.lfs.* value survives, a conflict is reported (non-zero exit) when a user hook or custom value stands in the way, a successful install repeated changes nothing, install + uninstall from a clean state leaves nothing behind; the classes the implementation model predicts are tracked as drift only.",
    "Global scope + one repository's hooks; --local/--worktree/--system/--file, core.hooksPath, symlinks, non-executable hooks and implicit installs not yet modelled. uninstall removing custom filter values is a recorded finding.", "DESIGN.md §5 C20"),
+ "C11": ("exploration",
+   "TLA+ model of configuration layering (spec/LfsConfig.tla: read sources, filter .lfsconfig to the documented allow-list, Git's configuration overlays; OnlyDocumented, GitWins, Independent checked by TLC) enumerated over key classes; per case the real git-lfs is observed through `git lfs env` and sentinel programs/listeners",
+   "TLC enumerates the complete product of 33 key classes (the documented allow-list and every other family git-lfs or git reads: lfs.*, lfs.<url>.*, lfs.customtransfer.*, lfs.extension.*, remote.* incl. two-part and dotted-name forms, url.*.insteadof, filter.lfs.*, credential.helper, core.askpass, core.sshcommand, http.proxy, include.path) x {lower, mixed} spelling x .lfsconfig in {work tree, index only, HEAD only} x {only in .lfsconfig, also in Git's configuration}. For each case distinguishable values are planted in the two sources and the harness observes which one git-lfs acts on; a value from .lfsconfig may be acted on only for a documented key that Git's configuration does not set.",
+   "Observation channels are `git lfs env` fields and sentinels exercised by a fixed command battery (clean, smudge, fetch, locks, ls-files, push --dry-run); a key whose effect none of these shows would be missed. Bare repositories and duplicated keys are not covered.", "DESIGN.md §5 C11"),
 }
 
 checks = []
